@@ -53,7 +53,19 @@ def apply(t, lab):
             else:
                 t.name = col
         elif a == "SetCell":
-            t["name", lab["i"]] = lab["n"]
+            i, n, form = lab["i"], lab["n"], lab.get("form", "pos")
+            if form == "pos":
+                t["name", i] = n
+            elif form == "neg":
+                t["name", i - len(t)] = n
+            elif form == "slice":
+                t["name", i:i + 1] = [n]
+            elif form == "list":
+                t["name", [i]] = [n]
+            else:
+                m = np.zeros(len(t), dtype=bool)
+                m[i] = True
+                t["name", m] = [n]
         elif a == "SetCellByRow":
             t["name", rowspec(lab["form"], lab["q"])] = lab["n"]
         elif a == "SetVal":
